@@ -205,13 +205,14 @@ func driveServerBody(body []byte, endErr error, clientStreams bool) (results []s
 	invoked := false
 	svr.bidi = func(s grpchantesting.TestService_BidiStreamServer) error {
 		invoked = true
+		var m Msg // one destination for every receive: each decoded frame must replace its content (also a zero-length frame)
 		for i := 0; i < 10000; i++ {
-			m, err := s.Recv()
+			err := s.RecvMsg(&m)
 			if err != nil {
 				results = append(results, "end:"+classify(err))
 				return nil
 			}
-			results = append(results, "m:"+hexOrDash(marshalDet(m)))
+			results = append(results, "m:"+hexOrDash(marshalDet(&m)))
 		}
 		return nil
 	}
@@ -441,6 +442,32 @@ func suiteC07(r *Run) {
 				if cutInsideFrame(bd.b) && len(res) > 0 && res[len(res)-1] == "end:eof" {
 					r.Violate("http-server/framing/truncated-request-reported-complete", "the stream decoder on either side yields exactly the framed messages that were encoded or reports an error (a body cut inside a frame is an error, not end of stream)",
 						sprintf("request body of %d bytes ends inside a frame, yet the handler's RecvMsg reported a clean io.EOF", len(bd.b)), sdesc, strings.Join(res, " "))
+				}
+				// independent of the model: for a body made of well-formed frames, what the handler is given is, in order,
+				// the payload of each frame re-encoded (client-streaming method: every frame)
+				if cs && (bd.kind == "encoded" || bd.kind == "truncated") && pan == "" {
+					var want []string
+					for _, f := range complete {
+						var m Msg
+						if proto.Unmarshal(f, &m) == nil {
+							want = append(want, "m:"+hexOrDash(marshalDet(&m)))
+						} else {
+							break
+						}
+					}
+					var got []string
+					for _, x := range res {
+						if strings.HasPrefix(x, "m:") {
+							got = append(got, x)
+						}
+					}
+					okPrefix := len(got) <= len(want)
+					for i := 0; okPrefix && i < len(got); i++ {
+						okPrefix = got[i] == want[i]
+					}
+					if !okPrefix {
+						r.Violate("http-server/framing/fabricated-or-altered", "yields exactly the framed messages that were encoded … never fabricates a message", sprintf("the handler was given %d messages that are not a prefix of the %d encoded ones", len(got), len(want)), sdesc, strings.Join(res, " "))
+					}
 				}
 				if allocMB > hugeLimitMB {
 					r.Violate("http-server/framing/unbounded-alloc", "never allocates more than the fixed per-message limit on the strength of an unverified length prefix",
